@@ -48,7 +48,7 @@ struct Running {
     job_path: PathBuf,
     stderr_path: PathBuf,
     kind: JobKind,
-    last_index: u64,
+    last_index: String,
     last_change: Instant,
 }
 
@@ -135,13 +135,22 @@ fn tail_of(path: &Path) -> String {
     }
 }
 
-fn read_state(path: &Path) -> Option<u64> {
+fn state_head(path: &Path) -> Option<String> {
     let s = std::fs::read_to_string(path).ok()?;
-    s.trim().trim_end_matches('S').parse().ok()
+    s.split_whitespace().next().map(|t| t.to_string())
+}
+
+fn read_state(path: &Path) -> Option<u64> {
+    state_head(path)?.trim_end_matches('S').parse().ok()
+}
+
+/// Index plus progress counter: changes whenever the worker makes progress.
+fn read_progress(path: &Path) -> Option<String> {
+    std::fs::read_to_string(path).ok().map(|s| s.trim().to_string())
 }
 
 fn died_while_shrinking(path: &Path) -> bool {
-    std::fs::read_to_string(path).map(|s| s.trim().ends_with('S')).unwrap_or(false)
+    state_head(path).map(|s| s.ends_with('S')).unwrap_or(false)
 }
 
 pub struct Orchestrator {
@@ -206,7 +215,7 @@ impl Orchestrator {
             job_path,
             stderr_path,
             kind,
-            last_index: u64::MAX,
+            last_index: String::new(),
             last_change: Instant::now(),
         }
     }
@@ -371,9 +380,9 @@ impl Orchestrator {
             let mut i = 0;
             while i < running.len() {
                 let r = &mut running[i];
-                if let Some(idx) = read_state(&r.job.state_file) {
-                    if idx != r.last_index {
-                        r.last_index = idx;
+                if let Some(cur) = read_progress(&r.job.state_file) {
+                    if cur != r.last_index {
+                        r.last_index = cur;
                         r.last_change = Instant::now();
                     }
                 }
